@@ -523,6 +523,25 @@ def promptReport (s : JobList) (monitor inter : Bool) : Str × JobList :=
     let idxs := matchingIdx s.entries (·.changed) 0
     (jobsPrint s false false idxs, idxs.foldl JobList.markReported s)
 
+/-- `input::reporter::report` when standard error cannot be written (closed): `write_all` of a non-empty report
+    fails, so the `state_reported()` loop is skipped — every job keeps its `state_changed` flag and is reported
+    at the next prompt; an empty report (`write_all` of no bytes succeeds) means no job had the flag (every line of
+    `Accumulator::add` starts with `[`), so there is no job to mark.  Either way, as with the options off, nothing is
+    printed and the table is untouched. -/
+def promptReportClosed (s : JobList) (_monitor _inter : Bool) : Str × JobList := ([], s)
+
+/-- entering a subshell (`subshell/config.rs`, the child task): the child works on a COPY of the environment in
+    which `env.jobs.disown_all()` has run — the job list is kept, no job is owned, `$!` is inherited -/
+def subshellJobs (s : JobList) : JobList := s.disownAll
+
+/-- `( jobs ARG… )`: the built-in in the subshell's copy; the parent's table is not touched
+    (docs/src/builtins/jobs.md: "the built-in reports not only jobs that were started in the subshell but also jobs
+    that were started in the parent shell") -/
+def subJobs (s : JobList) (args : List Str) : Out := (jobsBuiltin (subshellJobs s) args).1
+
+/-- `( wait ARG… )` (docs/src/builtins/wait.md: "Subshells cannot wait for jobs in the parent shell environment") -/
+def subWait (s : JobList) (args : List Str) : Out := (waitBuiltin (subshellJobs s) args).1
+
 /-- `wait::status::wait_while_running` over `wait::core::wait_for_any_job_or_trap` (no signal other
     than `SIGCHLD` arrives): test; on `Continue` take the next state change the system reports and
     pass it to `update_status`; when no child is left to report anything `wait` fails with `ECHILD`
@@ -639,6 +658,10 @@ inductive Op where
   | reportOne (i : Nat)                                   -- `get_mut(i).state_reported()`
   | ajs (pid : Nat) (result : PState) (inter : Bool) (name : Str)   -- deprecated `add_job_if_suspended`
   | removeIfFirst (k : Nat) (p : RmPred) (report : Bool)  -- `remove_if` with a counting `FnMut` closure
+  -- final pass
+  | promptClosed (monitor inter : Bool)   -- the prompt report with standard error closed
+  | subJobs (args : List Str)             -- `( jobs ARG… )` in a real subshell
+  | subWait (args : List Str)             -- `( wait ARG… )` in a real subshell
   deriving Repr
 
 def step (s : JobList) : Op → JobList
@@ -675,6 +698,9 @@ def step (s : JobList) : Op → JobList
   | .reportOne i => s.reportOne i
   | .ajs pid r i name => (addJobIfSuspended s pid r i name).2
   | .removeIfFirst k p r => (s.removeIfS (firstK p.eval) k r).2
+  | .promptClosed m i => (promptReportClosed s m i).2
+  | .subJobs _ => s
+  | .subWait _ => s
 
 def run (s : JobList) (ops : List Op) : JobList := ops.foldl step s
 
